@@ -87,7 +87,7 @@ def check(run):
     specs = corpus(run)
     units = []
     for s in specs:
-        units.append(shards.Unit("u_" + s.name.lower(), glue(s), meta={"enum_src": s.render()}, sig=s.signature()))
+        units.append(shards.Unit("u_" + s.name.lower(), glue(s), meta={"enum_src": s.render(), "bare_src": s.render_bare()}, sig=s.signature()))
     run.rule = RULE
     samples = standard_flow(run, units, deps["std"], vmon, profiles=("debug",), tag="c04")
     pick_samples(run, samples, {u.name: u for u in units})
